@@ -748,6 +748,30 @@ func (*ParserData).CodePop
   ensures [C08] len(p.codeStack) == old(len(p.codeStack)) - 1 && result1 == old(p.codeIndex) && result2 == old(p.codeStack[len(p.codeStack)-1].textPos)
   ensures [C08] p.codeIndex == old(p.codeStack[len(p.codeStack)-1].index) && p.loopLayer == old(p.codeStack[len(p.codeStack)-1].loopLayer) && p.blockDepth == old(p.codeStack[len(p.codeStack)-1].blockDepth) && p.fstrDepth == old(p.codeStack[len(p.codeStack)-1].fstrDepth)
   ensures [C07] p.codeOverflow == old(p.codeOverflow)
+  ensures len(p.code) == old(len(p.codeStack[len(p.codeStack)-1].code))
+
+// The source text stored with a compiled body (computed value, function) is exactly the text its code was compiled
+// from: fixCodeByOffset rebases the body's detail spans to that text, and the VM slices it with them
+// (typePushDefaultExpr, makeDetailStr) — a trimmed or otherwise edited copy would leave spans outside the text (C01, C14).
+func (*ParserData).AddStoreComputed
+  props C01 C14 C08
+  requires p != nil && len(p.codeStack) >= 1
+  requires 0 <= p.codeStack[len(p.codeStack)-1].index && p.codeStack[len(p.codeStack)-1].index <= len(p.codeStack[len(p.codeStack)-1].code) && len(p.codeStack[len(p.codeStack)-1].code) >= 1
+  ghost at precall 1 NewComputedValRaw: ghostAssert(arg0.Expr == text)
+
+func (*ParserData).AddStoreComputedOnStack
+  props C01 C14 C08
+  requires p != nil && len(p.codeStack) >= 1
+  requires 0 <= p.codeStack[len(p.codeStack)-1].index && p.codeStack[len(p.codeStack)-1].index <= len(p.codeStack[len(p.codeStack)-1].code) && len(p.codeStack[len(p.codeStack)-1].code) >= 1
+  ghost at precall 1 NewComputedValRaw: ghostAssert(arg0.Expr == text)
+
+func (*ParserData).AddStoreFunction
+  props C01 C14 C08
+  requires p != nil && len(p.codeStack) >= 1
+  requires 0 <= p.codeStack[len(p.codeStack)-1].index && p.codeStack[len(p.codeStack)-1].index <= len(p.codeStack[len(p.codeStack)-1].code) && len(p.codeStack[len(p.codeStack)-1].code) >= 1
+  ghost at precall 1 NewFunctionValRaw: ghostAssert(arg0.Expr == text && arg0.Name == name)
+  loop 1
+    invariant 0 <= i && i <= len(paramsReversed) && -1 <= j && j < len(paramsReversed) && i + j == len(paramsReversed) - 1
 
 func (*ParserData).OffsetPush
   props C02 C08
